@@ -238,5 +238,5 @@ def corpus():
 
 def plan(tier):
     if tier == "quick":
-        return {"streams": {"main": 4000}, "shards": 16}
+        return {"streams": {"main": 8000}, "shards": 16}
     return {"streams": {"main": 100000}, "shards": 16}
